@@ -315,7 +315,11 @@ func runC01(c *Ctx) {
 					if s, isS := dataV.(*ssa.Slice); isS && s.Low == nil {
 						_ = s // refilled buffer, checked above
 					} else {
-						c.check(ok && b == "param:b" && lo.equal(atomTerm(pkey, phi)), "R1", site+" (ii) data starts at the cursor", pos(a), "Data = b[cursor:…]", "Data does not start at the cursor: "+b+"["+lo.String()+":]")
+						// either an index cursor into the caller's buffer, or a buffer variable that is itself advanced by
+						// the chunk each time round (b = b[len(chunk):], starting as the caller's buffer) with the chunk
+						// its prefix — the offset advances by the same length (iii), so both name the same bytes
+						advancing := ok && isZero(lo) && strings.HasPrefix(b, "phi:") && bufferAdvancesByChunk(fn) && bufferStartsAsParam(fn, "b")
+						c.check((ok && b == "param:b" && lo.equal(atomTerm(pkey, phi))) || advancing, "R1", site+" (ii) data starts at the cursor", pos(a), "Data = b[cursor:…]", "Data does not start at the cursor: "+b+"["+lo.String()+":]")
 					}
 				case "sshFxpReadPacket":
 					// the destination buffer is checked on the work item (R2) or pool size below
@@ -415,33 +419,16 @@ func runC01(c *Ctx) {
 	c.check(n >= 12, "R1", "transfer sites", "?", fmt.Sprintf("%d request literals and chunk-helper calls examined", n), fmt.Sprintf("only %d transfer sites found (12 expected)", n))
 	c.floor("R1", 32)
 
-	// buffer advance in the readAt slicer: b = b[len(rb):]
-	if f := p.Func("(*File).readAt$1"); f != nil {
-		okAdv := false
-		eachInstr(f, func(in ssa.Instruction) {
-			phi, ok := in.(*ssa.Phi)
-			if !ok || isIntType(phi.Type()) {
-				return
-			}
-			l := innermostLoop(loopsOf(f), phi.Block())
-			if l == nil || l.head != phi.Block() {
-				return
-			}
-			for i, e := range phi.Edges {
-				if !l.blocks[phi.Block().Preds[i]] {
-					continue
-				}
-				if s, ok := e.(*ssa.Slice); ok && s.X == ssa.Value(phi) && s.Low != nil && s.High == nil {
-					lo := affineOf(s.Low)
-					for k := range lo.coef {
-						if strings.HasPrefix(k, "len(phi:rb") {
-							okAdv = true
-						}
-					}
-				}
-			}
-		})
-		c.check(okAdv, "R1", "readAt slicer buffer advance", p.Pos(f.Pos()), "b = b[len(rb):] each iteration", "the slicer's buffer does not advance by the chunk it just handed out")
+	// buffer advance in the readAt slicer: b = b[len(rb):]  (the slicer is found by what it does: the function of
+	// readAt that dispatches the READ literals; the chunk by being a prefix of the buffer variable, whatever its name)
+	if ra := p.Func("(*File).readAt"); ra != nil {
+		if f, _, _ := slicerOf(ra); f != nil {
+			c.check(bufferAdvancesByChunk(f), "R1", "readAt slicer buffer advance", p.Pos(f.Pos()), "b = b[len(rb):] each iteration", "the slicer's buffer does not advance by the chunk it just handed out")
+		} else {
+			c.und("R1", "readAt slicer buffer advance", p.Pos(ra.Pos()), "cannot find the code that dispatches the chunk requests")
+		}
+	} else {
+		c.missing("R1", "(*File).readAt")
 	}
 
 	runC01R2(c)
@@ -786,6 +773,9 @@ func runC01R2(c *Ctx) {
 		// read destination buffer: same length as requested
 		if bWork := litFieldWhere(work, isByteSlice); bWork != nil {
 			lenV := litField(lit, "Len")
+			if lenV == nil {
+				lenV = litField(lit, "Length") // a work item shared with the writers carries the chunk written
+			}
 			c.check(lenV != nil && affineOf(lenV).equal(chunkLen(bWork)), "R2", name+" buffer", pos(work), "destination buffer has the requested length", "the destination buffer's length differs from the length requested")
 		}
 		// the hand-off follows the dispatch in the same iteration
@@ -1391,4 +1381,75 @@ func provablyBoundedByField(p *Program, fn *ssa.Function, at ssa.Instruction, bu
 		}
 	}
 	return false
+}
+
+// bufferAdvancesByChunk: fn has a loop whose buffer variable (a []byte phi at the loop head) is, on every way round the
+// loop, resliced from the length of a chunk that is a prefix of that same variable: b = b[len(chunk):] with chunk = b
+// or b[:k].
+func bufferAdvancesByChunk(fn *ssa.Function) bool {
+	okAdv := false
+	eachInstr(fn, func(in ssa.Instruction) {
+		phi, ok := in.(*ssa.Phi)
+		if !ok || !isByteSlice(phi.Type()) {
+			return
+		}
+		l := innermostLoop(loopsOf(fn), phi.Block())
+		if l == nil || l.head != phi.Block() {
+			return
+		}
+		all, any := true, false
+		for i, e := range phi.Edges {
+			if !l.blocks[phi.Block().Preds[i]] {
+				continue
+			}
+			any = true
+			good := false
+			if s, ok := e.(*ssa.Slice); ok && s.X == ssa.Value(phi) && s.Low != nil && s.High == nil {
+				lo := affineOf(s.Low)
+				if len(lo.coef) == 1 && lo.c == 0 {
+					for _, v := range lo.atoms {
+						if call, isCall := v.(*ssa.Call); isCall && builtinName(&call.Call) == "len" {
+							if b, st, ok := chunkStart(call.Call.Args[0], 0); ok && b == valKey(phi) && isZero(st) {
+								good = true
+							}
+						}
+					}
+				}
+			}
+			if !good {
+				all = false
+			}
+		}
+		if all && any {
+			okAdv = true
+		}
+	})
+	return okAdv
+}
+
+// bufferStartsAsParam: the []byte loop variable of fn's advancing buffer enters the loop as the named parameter of the
+// enclosing method (directly, or as the captured / copied parameter).
+func bufferStartsAsParam(fn *ssa.Function, name string) bool {
+	found := false
+	eachInstr(fn, func(in ssa.Instruction) {
+		phi, ok := in.(*ssa.Phi)
+		if !ok || !isByteSlice(phi.Type()) {
+			return
+		}
+		l := innermostLoop(loopsOf(fn), phi.Block())
+		if l == nil || l.head != phi.Block() {
+			return
+		}
+		for i, e := range phi.Edges {
+			if l.blocks[phi.Block().Preds[i]] {
+				continue
+			}
+			for _, lf := range leavesOf(e) {
+				if lf.Kind == leafParam && lf.Param.Name() == name {
+					found = true
+				}
+			}
+		}
+	})
+	return found
 }
